@@ -31,6 +31,12 @@ type ClockCase struct {
 	DeadlineNs int64       `json:"deadline_ns,omitempty"`
 	CancelNs   int64       `json:"cancel_ns,omitempty"`
 	CeilingNs  int64       `json:"ceiling_ns,omitempty"`
+	// CeilingHow says how the host configured the ceiling: "" = the
+	// WithMaxSleep option at construction; "field" = by assigning the exported
+	// Runtime.MaxSleep after construction; "retighten" = a looser ceiling by
+	// option first, then the real one by assignment; "reoption" = a looser
+	// ceiling by option first, then the real one by applying the option again
+	CeilingHow string `json:"ceiling_how,omitempty"`
 	Sleeps     []SleepCall `json:"sleeps"`
 	TRO        string      `json:"tro,omitempty"`
 	// Via says how the sleeps are reached: "" = written directly in the
@@ -179,6 +185,9 @@ func (e *clockEngine) Gen(r *Rand, tier string) any {
 		c.OldCtx = PickStr(r, []string{"background", "cancelled", "deadline-past", "long-deadline"})
 	}
 	c.CeilingNs = []int64{0, 0, -1, 30 * int64(time.Minute), hourNs, 2 * hourNs, 1, int64(time.Second)}[r.Intn(8)]
+	if r.Chance(1, 3) {
+		c.CeilingHow = PickStr(r, []string{"field", "retighten", "reoption"})
+	}
 	span := []int64{1, 1000, int64(time.Second), int64(7 * time.Minute), hourNs, 3 * hourNs, 30 * 24 * hourNs}[r.Intn(7)]
 	pickT := func() int64 { return 1 + r.I63n(span*2) }
 	switch c.CtxKind {
@@ -307,9 +316,25 @@ func (e *clockEngine) Run(ci any, st *Stats) *Violation {
 
 func (e *clockEngine) runInBubble(c *ClockCase, st *Stats) *Violation {
 	k := Knobs{TimeLib: true, TRO: c.TRO, MaxSleepN: c.CeilingNs}
+	switch c.CeilingHow {
+	case "field":
+		k.MaxSleepN = 0
+	case "retighten", "reoption":
+		k.MaxSleepN = 3 * hourNs
+	}
 	w, err := NewWorld(k)
 	if err != nil {
 		return Violf("harness", "%v", err)
+	}
+	switch c.CeilingHow {
+	case "field", "retighten":
+		w.RT.MaxSleep = time.Duration(c.CeilingNs)
+		st.Inc("config_ceiling_assigned_to_runtime_field")
+	case "reoption":
+		if v := lisp.WithMaxSleep(time.Duration(c.CeilingNs))(w.Env); v != nil && v.Type == lisp.LError {
+			return Violf("harness", "WithMaxSleep: %v", v)
+		}
+		st.Inc("config_ceiling_option_applied_twice")
 	}
 	start := time.Now()
 	type stamp struct {
@@ -541,6 +566,11 @@ func (e *clockEngine) Shrink(ci any) []any {
 	if c.CeilingNs != 0 {
 		d := *c
 		d.CeilingNs = 0
+		out = append(out, &d)
+	}
+	if c.CeilingHow != "" {
+		d := *c
+		d.CeilingHow = ""
 		out = append(out, &d)
 	}
 	if c.TRO != "" {
